@@ -1,6 +1,6 @@
 #!/usr/bin/env python3
 """Re-runs the check of each seeded change's property against the change (scratch worktree, PYXAB_REPO):
-usage: tools/reseed.py [Cxx ...]   (default: all).  Expected: DETECTED for every seeded/<id>[bcd]/patch.diff."""
+usage: tools/reseed.py [Cxx ...]   (default: all).  Expected: DETECTED for every seeded/<id>[bcde]/patch.diff."""
 import glob
 import json
 import os
